@@ -102,6 +102,12 @@ P.update({
         "natively or in another calendar; each result compared with the nearest candidate on the requested side; the tool's "
         "output rounded again must be unchanged; -n results must differ from the input.",
    note=SAN + "month-based targets on ymcw and business-day-of-month targets are not judged. " + TB, ref="3 C16"),
+ "C17": dict(cat="exploration", tech="reference-model monitor (Boolean evaluation of the generated tree) over complete dgrep outputs + invariant probe H5 after simplification + ASan/UBSan",
+   text="dgrep [-v] with expressions rendered from random and shaped trees (left/right chains, conjunctions of disjunctions, "
+        "negated junctions, multiple negation, && over || at depth; atoms: dates, times, date-times, ten specifiers, six "
+        "operators) over generated lines (text around dates, no date, two dates, CR); the output must be exactly the lines "
+        "the tree selects, in order; malformed/huge/deep expressions must end with an exit status and no report.",
+   note=SAN + "probe H5 (src/dexpr.c): no negation flag left and no node reachable twice after dexpr_simplify. " + TB, ref="3 C17"),
 })
 
 NOT_YET = {}
